@@ -1,2 +1,51 @@
-def run(prop, cfg, repo):
-    return []
+"""Vacuity probes (thorough tier; DESIGN.md 9.3).
+
+For every Verus unit of the property the emitted file is rebuilt with `proof { assert(false); }` spliced at the entry
+of every function under contract.  Each such function must then FAIL: if one still verifies, its `requires` clauses
+(together with the type invariants and broadcast axioms in scope) are contradictory and its postconditions hold
+vacuously.  A second pass puts the probe before the tail expression: if that verifies, some callee contract on the way
+to the end of the body is contradictory (or the end is unreachable).  Results: [(name, killed, detail)].
+"""
+import os
+from . import verus_run
+
+HERE = os.path.dirname(os.path.dirname(os.path.abspath(__file__)))
+
+# functions whose tail is legitimately unreachable or which have no tail expression to probe: "unit/fn"
+TAIL_EXEMPT = set()
+
+
+def run(prop, cfg, repo, run=None):
+    out = []
+    for u in cfg.get("verus", []):
+        if isinstance(u, str):
+            name, tag, smap = u, "", None
+        else:
+            name, tag, smap = u
+        path = os.path.join(HERE, "contracts", "verus", name + ".vrs")
+        for probe in ("entry", "tail"):
+            res = verus_run.run_unit(path, repo, None, (), tag + "_probe_" + probe, smap, probe)
+            if res.em is None or res.status == "undecided":
+                out.append(("%s%s/*[%s]" % (name, tag, probe), None, "probe run undecided: %s" % (res.reason,)))
+                continue
+            lost = set(fn for fn, a in res.em.lost_anchors if "before-tail" in a or a == "entry")
+            for f in res.em.functions:
+                if not f["contract"]:
+                    continue
+                fn = f["name"]
+                spec = res.unit.fns.get(fn)
+                if spec is not None and spec.external_body:
+                    continue
+                if run is not None and not run.relevant(res.unit, fn):
+                    continue
+                key = "%s%s/%s[%s]" % (name, tag, fn, probe)
+                if probe == "tail" and ("%s/%s" % (name, fn) in TAIL_EXEMPT or fn in lost):
+                    continue
+                fr = res.fn.get(fn)
+                killed = fr is not None and not fr.ok
+                out.append((key, killed, "" if killed else "assert(false) at the %s of the body verified: contract is vacuous there" % probe))
+            try:
+                os.remove(res.emitted_path)
+            except OSError:
+                pass
+    return out
